@@ -1339,7 +1339,10 @@ ws_http_cb_dialer(nni_ws *ws, nni_aio *aio)
 
 	d = ws->dialer;
 	nni_mtx_lock(&d->mtx);
+	// (useraio belongs to ws->mtx: ws_dial_cancel and ws_conn_cb use that)
+	nni_mtx_lock(&ws->mtx);
 	uaio = ws->useraio;
+	nni_mtx_unlock(&ws->mtx);
 
 	// We have two steps.  In step 1, we just sent the request,
 	// and need to retrieve the reply.  In step two we have
@@ -1413,11 +1416,19 @@ ws_http_cb_dialer(nni_ws *ws, nni_aio *aio)
 		}
 	}
 
-	// At this point, we are in business!
-	nni_list_remove(&d->wspend, ws);
-	ws->ready   = true;
+	// At this point, we are in business!  Unless the request was canceled
+	// meanwhile: claim the user aio, so that only one of us completes it.
+	nni_mtx_lock(&ws->mtx);
+	if ((uaio = ws->useraio) == NULL) {
+		nni_mtx_unlock(&ws->mtx);
+		rv = NNG_ECANCELED;
+		goto err;
+	}
 	ws->useraio = NULL;
-	ws->dialer  = NULL;
+	nni_mtx_unlock(&ws->mtx);
+	nni_list_remove(&d->wspend, ws);
+	ws->ready  = true;
+	ws->dialer = NULL;
 	nni_aio_set_output(uaio, 0, ws);
 	nni_aio_finish(uaio, 0, 0);
 	if (nni_list_empty(&d->wspend)) {
@@ -1427,8 +1438,11 @@ ws_http_cb_dialer(nni_ws *ws, nni_aio *aio)
 	return;
 err:
 	nni_list_remove(&d->wspend, ws);
+	nni_mtx_lock(&ws->mtx);
+	uaio        = ws->useraio;
 	ws->useraio = NULL;
-	ws->dialer  = NULL;
+	nni_mtx_unlock(&ws->mtx);
+	ws->dialer = NULL;
 	if (nni_list_empty(&d->wspend)) {
 		nni_cv_wake(&d->cv);
 	}
